@@ -756,6 +756,40 @@ func c15(c *core.Ctx) {
 	c.Family("sender", c.N(60000, 20000000), c15Sender)
 	c.Family("reference-orders", c.N(40000, 10000000), c15Reference)
 	c.Family("bit-flips", c.N(200, 40000), c15Flips)
+	// two different packets (same key) that agree in a weak fingerprint: AT_RAND of the second is solved for
+	c.Family("colliding-packets", c.N(len(core.Fingerprints)*6, len(core.Fingerprints)*300), func(k *core.Case) {
+		fp := core.Fingerprints[k.Index%len(core.Fingerprints)]
+		key := k.R.Bytes(32)
+		a := gen.AKAWith(k.R, 1, 127)
+		e := &abs.EAP{Code: 1, ID: k.R.Byte(), Method: &abs.Method{Type: abs.MAkaPrime, AKA: a}}
+		w1, err := ref.EncodeEAP(e, nil)
+		if err != nil {
+			return
+		}
+		w2 := append([]byte{}, w1...)
+		// AT_RAND is the first attribute: value at offset 8+4 .. 8+20
+		w2[1] ^= 0x10 // another identifier
+		if w2[8] != abs.ATRand || !core.PatchToCollide(w2, 12+k.R.Intn(16-fp.Bytes+1), fp, fp.F(w1)) || bytes.Equal(w1, w2) {
+			return
+		}
+		for round, wv := range [][]byte{w1, w2, w1} {
+			off := macOffset(wv)
+			if off < 0 {
+				return
+			}
+			k.Eval(1)
+			le := new(eap.EAP)
+			if err := le.Unmarshal(append([]byte{}, wv...)); err != nil {
+				return
+			}
+			mac, err := le.CalcEapAkaPrimeAtMAC(key)
+			if err != nil || !bytes.Equal(mac, refMAC(key, wv, off)) {
+				k.Violate("mismatch", "mac-wrong-for-a-packet-that-collides-with-an-earlier-one/"+fp.Name, fmt.Sprintf("packet %d: err=%v", round+1, err), M{"packet1": core.Hex(w1), "packet2": core.Hex(w2), "k_aut": core.Hex(key)})
+				return
+			}
+		}
+		k.Count("colliding_packet_pairs", 1)
+	})
 	// several sessions at once, each goroutine with its OWN packet object and key (nothing shared by the caller):
 	// every code computed must be the one the reference gives for that session's packet; the race-detector build
 	// of this family additionally reports hidden shared state inside the library
@@ -824,6 +858,6 @@ func c15(c *core.Ctx) {
 		k.Count("parallel_sessions_agree", 1)
 		k.Distinct(fmt.Sprintf("parallel|%d", len(ss)))
 	})
-	c.Require("receiver_read_all_attributes_before_computing", "sender_read_all_attributes_before_computing", "receiver_made_refused_setter_calls_first", "parallel_sessions_agree", "sender_receiver_agree", "reference_packets_accepted", "reference_packets_over_4k", "exhaustive_flip_packets", "flip_region_attr-padding", "flip_region_attr-reserved-or-bitlen",
+	c.Require("colliding_packet_pairs", "receiver_read_all_attributes_before_computing", "sender_read_all_attributes_before_computing", "receiver_made_refused_setter_calls_first", "parallel_sessions_agree", "sender_receiver_agree", "reference_packets_accepted", "reference_packets_over_4k", "exhaustive_flip_packets", "flip_region_attr-padding", "flip_region_attr-reserved-or-bitlen",
 		"flip_region_mac-value", "flip_region_eap-header", "flip_region_aka-header", "flip_region_attr-type", "flip_region_attr-length", "flip_region_attr-value")
 }
